@@ -73,6 +73,7 @@ def bootstrap():
         sys.path.remove(REPO)
     sys.path.insert(0, REPO)
     base = os.environ.get("VERIF_SCRATCH_BASE") or ("/dev/shm" if os.path.isdir("/dev/shm") else tempfile.gettempdir())
+    _sweep_stale_scratch(base)
     _SCRATCH = tempfile.mkdtemp(prefix="oasverif-", dir=base)
     os.chdir(_SCRATCH)
     import atexit
@@ -95,6 +96,22 @@ def bootstrap():
     import openmdao.api  # noqa: F401
 
     _BOOTSTRAPPED = True
+
+
+def _sweep_stale_scratch(base, max_age_s=12 * 3600):
+    """Scratch directories of runs that were killed (no atexit) are removed once they are clearly dead."""
+    try:
+        now = time.time()
+        for name in os.listdir(base):
+            if name.startswith("oasverif-"):
+                p = os.path.join(base, name)
+                try:
+                    if now - os.path.getmtime(p) > max_age_s:
+                        shutil.rmtree(p, ignore_errors=True)
+                except OSError:
+                    pass
+    except OSError:
+        pass
 
 
 def _cleanup_scratch(pid, path):
